@@ -1,9 +1,14 @@
 (* C18, typing clause: hand-written model of the type dispatch of the operator functions of
    values/values.py (pow add sub mul div intdiv mod_ eq..lte and_..imp_ neg not_ and the identity for
-   unary plus), and of their values on the sub-domain where results are exact: integer-valued numbers of
-   magnitude <= 32767 and byte strings.  Outside that domain (non-integral quotient, division by zero -
-   a soft error in pcbasic -, negative exponent, magnitude above 32767) the model answers
-   Host host_Other; the harness only generates in-domain cases.  Tied to /repo by correspondence. *)
+   unary plus), and of their values on the sub-domain where results are exact: integer-valued numbers that
+   are exactly representable in their type (integer: magnitude <= 32767, single: <= 2^24, double: <= 2^53)
+   and byte strings.  A number beyond the integer range given to an integer operator (\ MOD AND .. IMP NOT)
+   is an Overflow error.  Outside the domain (non-integral quotient, division by zero - a soft error in
+   pcbasic -, negative exponent, a result not exactly representable in its type, -32768) the model answers
+   Host host_Other; the harness only generates in-domain cases.  Tied to /repo by correspondence.
+   Singles above 32767 and doubles above 2^24 make the PRECISION in which an operator works observable:
+   16777216! = 16777217# is false only if the comparison is done in double, 3 > 40000# overflows if the
+   double is narrowed to an integer. *)
 From Coq Require Import ZArith List Bool.
 From PCB Require Import lib.Result lib.PyInt lib.Harness gen.Gen_prec model.Shunting.
 Import ListNotations.
@@ -67,8 +72,17 @@ Inductive val := VNum (t : ty) (x : Z) | VStr (s : list Z).
 Definition ty_of (v : val) : ty := match v with VNum t _ => t | VStr _ => TStr end.
 
 Definition out_of_domain {A} : res A := Host host_Other.
-Definition in_dom (x : Z) : bool := (-32767 <=? x) && (x <=? 32767).
-Definition num (t : ty) (x : Z) : res val := if in_dom x then Ok (VNum t x) else out_of_domain.
+(* integers exactly representable in the type *)
+Definition ty_bound (t : ty) : Z :=
+  match t with TInt => 32767 | TSng => 16777216 | TDbl => 9007199254740992 | TStr => 0 end.
+Definition in_dom (t : ty) (x : Z) : bool := (- ty_bound t <=? x) && (x <=? ty_bound t).
+Definition num (t : ty) (x : Z) : res val := if in_dom t x then Ok (VNum t x) else out_of_domain.
+(* to_integer() of an operand of an integer operator *)
+Definition int_arg (x : Z) : res Z :=
+  if in_dom TInt x then Ok x
+  else if x =? -32768 then out_of_domain else Err prec_err_OVERFLOW.
+Definition integer_op (o : bop) : bool :=
+  match o with IntDiv | Mod | And | Or | Xor | Eqv | Imp => true | _ => false end.
 Definition b2i (b : bool) : Z := if b then -1 else 0.
 
 (* String.gt *)
@@ -87,7 +101,7 @@ Definition rel (o : bop) (eq gt lt : bool) : bool :=
 
 Definition num_binop (o : bop) (x y : Z) : res Z :=
   match o with
-  | Pow => if y <? 0 then out_of_domain else Ok (x ^ y)
+  | Pow => if (y <? 0) || negb (in_dom TSng x) || negb (in_dom TSng y) then out_of_domain else Ok (x ^ y)
   | Mul => Ok (x * y)
   | Div => if y =? 0 then out_of_domain else if x mod y =? 0 then Ok (x / y) else out_of_domain
   | IntDiv => if y =? 0 then out_of_domain else Ok (Z.quot x y)
@@ -102,10 +116,19 @@ Definition num_binop (o : bop) (x y : Z) : res Z :=
   | Imp => Ok (Z.lor (Z.lnot x) y)
   end.
 
+(* the integer operators convert their left operand before they look at the right one, so an Overflow of
+   the left operand comes before a Type mismatch of the right one:  100000! AND "A"  is an Overflow *)
+Definition left_conv (o : bop) (a : val) : res unit :=
+  if integer_op o then match a with VNum _ x => do _ <- int_arg x; Ok tt | VStr _ => Ok tt end else Ok tt.
+
 Definition v_binop (dm : bool) (o : bop) (a b : val) : res val :=
+  do _ <- left_conv o a;
   do t <- rt_binop dm o (ty_of a) (ty_of b);
   match a, b with
-  | VNum _ x, VNum _ y => do r <- num_binop o x y; num t r
+  | VNum _ x, VNum _ y =>
+      if integer_op o
+      then do x' <- int_arg x; do y' <- int_arg y; do r <- num_binop o x' y'; num t r
+      else do r <- num_binop o x y; num t r
   | VStr s1, VStr s2 =>
       if relational o then Ok (VNum t (b2i (rel o (str_eq s1 s2) (str_gt s1 s2) (str_gt s2 s1))))
       else if (zlen s1 + zlen s2) <=? 255 then Ok (VStr (s1 ++ s2)) else out_of_domain
@@ -116,7 +139,7 @@ Definition v_unop (o : uop) (a : val) : res val :=
   do t <- rt_unop o (ty_of a);
   match o, a with
   | Neg, VNum _ x => num t (- x)
-  | Not, VNum _ x => num t (- x - 1)
+  | Not, VNum _ x => do x' <- int_arg x; num t (- x' - 1)
   | _, _ => Ok a
   end.
 
